@@ -52,6 +52,7 @@ PROPS["C11"] = dict(
 )
 
 ORSWOT_PROFILES = [
+    dict(name="orswot_exhaustive", quick=4, thorough=5, exhaustive="all scripts of that length over 2 replicas x members {0,1} x {add, rm, deliver (per-author order), merge}, seed-independent"),
     dict(name="orswot_overtake", quick=500, thorough=10000),
     dict(name="orswot_fifo", quick=1500, thorough=30000),
     dict(name="orswot_causal", quick=700, thorough=15000),
@@ -332,7 +333,8 @@ MANIFEST_TEXT["C05"] = dict(
     note=NOTE, technique="Lean 4 proof (simulation of Orswot by Map's key level + Orswot representation theorem) + differential correspondence check", design_ref="DESIGN.md §7 C05")
 
 for _pid in ("C02", "C03", "C07", "C08", "C09", "C20"):
-    PROPS[_pid]["profiles"] = [dict(name="orswot_overtake", quick=500, thorough=10000)] + PROPS[_pid]["profiles"]
+    PROPS[_pid]["profiles"] = [dict(name="orswot_exhaustive", quick=4, thorough=5, exhaustive="all scripts of that length over 2 replicas x members {0,1}"),
+                               dict(name="orswot_overtake", quick=500, thorough=10000)] + PROPS[_pid]["profiles"]
 
 for _pid in ("C01", "C02", "C03", "C07", "C08", "C09", "C20"):
     PROPS[_pid]["lean_targets"] = PROPS[_pid]["lean_targets"] + ["CrdtModel.Props.C05"]
